@@ -121,6 +121,15 @@ pub fn create_send_all(
     utxos: &TransactionUnspentOutputs,
     config: &TransactionBuilderConfig,
 ) -> Result<TransactionBatchList, JsError> {
+    // a UTxO listed twice is one UTxO: the batch tools index the list by position and would pay its value out twice
+    let mut seen = std::collections::BTreeSet::new();
+    let mut unique = Vec::new();
+    for utxo in &utxos.0 {
+        if seen.insert(utxo.input.clone()) {
+            unique.push(utxo.clone());
+        }
+    }
+    let utxos = &TransactionUnspentOutputs(unique);
     let mut tx_batch_builder = TxBatchBuilder::new(utxos, address, config)?;
     let batch = tx_batch_builder.build(utxos)?;
     Ok(TransactionBatchList(vec![batch]))
